@@ -232,3 +232,104 @@ def run_flag_reach(run, P):
                                   'function, so the test is vacuous and the RFC 8613 step it steers (fresh Partial IV / nonce for an Observe notification, ...) is never taken here'
                                   % (init[v][1], init[v][0]), [])
     run.require(nf >= 4 or run.fixture_mode, 'R-OSC-SPLIT(flags): fewer than 4 flag tests found in %s' % (FLAG_FUNCS,))
+
+
+# ---------------------------------------------------------------------------------------------------------------
+CMP_OPS = ('==', '!=', '<', '>', '<=', '>=', '&&', '||')
+
+
+def run_match_acc(run, P, units=('oscore_context.c', 'coap_oscore.c', 'oscore.c', 'oscore_cose.c')):
+    """R-OSC-SPLIT (match accumulators): the security-context look-up collects several comparisons (Recipient ID, ID Context, R2
+    prefix) in one local before it decides.  A truth value (the result of a comparison, possibly added to / or-ed with others)
+    assigned to a local must be read before another truth value overwrites it; an overwrite on some path means an earlier
+    comparison no longer takes part in the decision -- a message is then matched to a context whose Recipient ID differs ("use of a
+    different context makes the recipient reject" fails the other way round: the right context is no longer found).  Locals whose
+    address is taken are not judged; an accumulating update (`ok = ok + ..`, `ok |= ..`) reads the old value and is fine."""
+    run.rule('R-OSC-SPLIT')
+    nf = 0
+    for f in sorted(P.lib_funcs(), key=lambda f: f['name']):
+        if units and f['unit'] not in units:
+            continue
+
+        def truthy(r):
+            r = strip(r)
+            if not isinstance(r, dict):
+                return False
+            if r.get('k') == 'bin' and r.get('op') in CMP_OPS:
+                return True
+            if r.get('k') == 'un' and r.get('op') == '!':
+                return True
+            if r.get('k') == 'bin' and r.get('op') in ('+', '|', '&'):
+                return truthy(r['l']) or truthy(r['r'])
+            return False
+        cands = set()
+        for b, ev in P.events(f):
+            t = ev['e']
+            if t.get('k') == 'asg' and t.get('op') == '=' and ev.get('top') and truthy(t['r']):
+                l = ap(t['l'])
+                if l and '.' not in l and '>' not in l:
+                    cands.add(l)
+        if not cands:
+            continue
+        for b, ev in P.events(f):
+            for x in walk(ev['e']):
+                if isinstance(x, dict) and x.get('k') == 'un' and x.get('op') == '&' and ap(x.get('e')) in cands:
+                    cands.discard(ap(x['e']))
+        if not cands:
+            continue
+        name = f['name']
+        nf += len(cands)
+        run.instance('R-OSC-SPLIT', '%s: match accumulator(s) %d' % (name, len(cands)))
+        found = {}
+
+        def reads(t, l):
+            skip = strip(t['l']) if t.get('k') == 'asg' and t.get('op') == '=' else None
+            return any(isinstance(x, dict) and x.get('k') == 'var' and ap(x) == l and x is not skip for x in walk(t))
+
+        def on_event(ev, env, ctx):
+            t = ev['e']
+            if not ev.get('top') and t.get('k') != 'ret':
+                return None
+            st = dict(env.ts.get('p', ()))
+            ch = False
+            for l in list(st):
+                if reads(t, l):
+                    st.pop(l)
+                    ch = True
+            if t.get('k') == 'asg' and t.get('op') == '=' and ap(t['l']) in cands:
+                l = ap(t['l'])
+                if l in st and truthy(t['r']):
+                    found.setdefault((st[l], ev['loc']), ctx.path())
+                if truthy(t['r']):
+                    st[l] = ev['loc']
+                else:
+                    st.pop(l, None)
+                ch = True
+            if ch:
+                e = env.copy()
+                e.ts['p'] = tuple(sorted(st.items()))
+                return [apply_generic(ev, e, None)]
+            return None
+
+        def on_branch(b, s, env, ctx):
+            c = (b.get('term') or {}).get('cond')
+            if c is None:
+                return env
+            st = dict(env.ts.get('p', ()))
+            ch = False
+            for l in list(st):
+                if any(isinstance(x, dict) and x.get('k') == 'var' and ap(x) == l for x in walk(c)):
+                    st.pop(l)
+                    ch = True
+            if ch:
+                e = env.copy()
+                e.ts['p'] = tuple(sorted(st.items()))
+                return e
+            return env
+        solve(f, Env({'p': ()}), on_event, None, None, None, key_fn=lambda e: e.ts.get('p'), on_branch=on_branch, max_envs=256)
+        run.oblige('R-OSC-SPLIT', not found, '%s:match-acc' % name)
+        for (a, b2), path in sorted(found.items()):
+            run.violation('R-OSC-SPLIT', name, b2, 'comparison-result-overwritten',
+                          'the truth value assigned at %s is overwritten here before anything read it: that comparison no longer takes part in the decision (a look-up then accepts an '
+                          'entry that differs in what was compared there)' % a.rsplit('/', 1)[-1], path)
+    run.require(nf >= 1 or run.fixture_mode, 'R-OSC-SPLIT(match accumulators): no truth-valued local found in %s' % (units,))
